@@ -400,4 +400,47 @@ theorem bu_convertToBest_idempotent {c : Converter Rat} (hc : c.Sound) {u : Unit
       rw [this]
       simp only [bu_convertValue_self]
 
+/-! ### `Converter::convert` to a system -/
+
+theorem bu_convertToBest_inv {c : Converter Rat} {value v' : ConvertValue Rat} {u b : Unit Rat} {s : System}
+    (h : c.convertToBest value u s = .ok (v', b)) :
+    ((c.best u.pq).conversions s).bestUnit value u = .ok (some b) ∧ convertValue value u b = .ok v' := by
+  unfold Converter.convertToBest at h
+  split at h
+  · cases h
+  · cases h
+  · rename_i best hbest
+    split at h
+    · cases h
+    · rename_i v hv
+      simp only [Except.ok.injEq, Prod.mk.injEq] at h
+      obtain ⟨rfl, rfl⟩ := h
+      exact ⟨hbest, hv⟩
+
+/-- the system `Converter::convert` converts to: the given one, or the unit's own (the default one for a unit of none) -/
+def ConvertTo.systemFor (c : Converter Rat) (u : Unit Rat) : ConvertTo Rat → Option System
+  | .best s => some s
+  | .sameSystem => some (u.system.getD c.defaultSystem)
+  | .unit _ => none
+
+theorem bu_convert_inv {c : Converter Rat} {value v' : ConvertValue Rat} {u b : Unit Rat} {to : ConvertTo Rat}
+    {s : System} (hs : to.systemFor c u = some s) (h : c.convert value (.unit u) to = .ok (v', b)) :
+    c.convertToBest value u s = .ok (v', b) := by
+  unfold Converter.convert at h
+  simp only [getUnit_unit] at h
+  cases to with
+  | unit t => cases hs
+  | best s' => simp only [ConvertTo.systemFor, Option.some.injEq] at hs; subst hs; exact h
+  | sameSystem => simp only [ConvertTo.systemFor, Option.some.injEq] at hs; subst hs; exact h
+
+theorem bu_convert_of {c : Converter Rat} {value v' : ConvertValue Rat} {u b : Unit Rat} {to : ConvertTo Rat}
+    {s : System} (hs : to.systemFor c u = some s) (h : c.convertToBest value u s = .ok (v', b)) :
+    c.convert value (.unit u) to = .ok (v', b) := by
+  unfold Converter.convert
+  simp only [getUnit_unit]
+  cases to with
+  | unit t => cases hs
+  | best s' => simp only [ConvertTo.systemFor, Option.some.injEq] at hs; subst hs; exact h
+  | sameSystem => simp only [ConvertTo.systemFor, Option.some.injEq] at hs; subst hs; exact h
+
 end Cook
